@@ -1,5 +1,26 @@
 import KrroodVerif.Sexp
+import KrroodVerif.Model.Eql
+import KrroodVerif.Model.EqlFindings
+import KrroodVerif.Drive.EqlParse
 namespace KrroodVerif.Drive.C02
-/-- stub: replaced when the model for C02 is built -/
-def run (_ : Sexp) : String := "model=unimplemented\tspec=unimplemented\ttrig="
+open KrroodVerif KrroodVerif.Eql KrroodVerif.Drive.EqlParse
+
+/-- `the(...)` on the model's result list / on the specified solutions (C09's `theSpec` shape) -/
+def showThe (r : Except Err (List (List Val))) : String :=
+  match r with
+  | .error e => errName e
+  | .ok [] => "noSolution"
+  | .ok [row] => "value " ++ showRow row
+  | .ok _ => "multipleSolutions"
+
+def run (s : Sexp) : String :=
+  match parseCase s with
+  | none => "error=bad-case"
+  | some (w, q) =>
+    let m := evalQuery w q.toQuery
+    let sp := solutions w q
+    let trig := match q.cond.map build with
+      | some e => if trigFalsy w e then "F-C02-1" else ""
+      | none => ""
+    s!"model={showBag m} | {showThe m}\tspec={showBag sp} | {showThe sp}\ttrig={trig}"
 end KrroodVerif.Drive.C02
